@@ -32,14 +32,12 @@ func (o *c13oracle) enum(at string, a, b *DEnum) {
 	}
 	for i, v := range a.Vals {
 		if b.Vals[i] != v {
-			// the recorded finding, and nothing else: the SOURCE enum had no options (so the
-			// old enum is exactly [<PREFIX>UNSPECIFIED = 0]), the first option the edits appended
-			// to it ends in UNSPECIFIED, and the new zero value is exactly that option under the
-			// enum's prefix (a first option ending in UNSPECIFIED is taken as the zero value).
-			// Any other renaming / renumbering of an enum value gets the general signature.
+			// (the class repaired by a65e1f2 - the SOURCE enum had no options and the first option
+			// appended to it ends in UNSPECIFIED - keeps a signature of its own so that a
+			// regression of that fix is named)
 			if opt, ok := o.emptyEnumAppends[at]; ok && i == 0 && len(a.Vals) == 1 && v.Num == 0 &&
 				strings.HasSuffix(v.Name, "UNSPECIFIED") && b.Vals[0] == (DVal{Name: prefixedOption(strings.TrimSuffix(v.Name, "UNSPECIFIED"), opt), Num: 0}) {
-				o.fail("C13 option ending in UNSPECIFIED appended to an enum without options replaces the implicit zero value", "enum values (name, number) unchanged", fmt.Sprintf("%s: %v", at, b.Vals[0]), fmt.Sprint(v))
+				o.fail("C13 option ending in UNSPECIFIED appended to an enum without options replaces the implicit zero value (regression of fix a65e1f2)", "enum values (name, number) unchanged", fmt.Sprintf("%s: %v", at, b.Vals[0]), fmt.Sprint(v))
 				continue
 			}
 			o.fail("C13 enum value (name, number) changed by an append edit", "enum values (name, number) unchanged", fmt.Sprintf("%s: %v", at, b.Vals[i]), fmt.Sprint(v))
@@ -245,11 +243,12 @@ func runC13(cfg *vh.Config) error {
 			es = append(es, e.Coq)
 		}
 		okall0, okall1 := acceptsAll(b0, t0, pkg, g0.ok), acceptsAll(b1, t1, pkg, g1.ok)
-		// embeds: the old descriptors are expected to embed into the new ones - always, except
-		// for the hand-written pair of the known finding
-		// ... and for generated pairs that contain an instance of it (an option ending in UNSPECIFIED
-		// appended first to an enum without options, anywhere)
-		embeds := !(i < len(pairs) && pairs[i].KnownNoEmbed) && len(knownAppends) == 0
+		// embeds: the old descriptors are expected to embed into the new ones - always (no
+		// excluded class since fix a65e1f2)
+		embeds := !(i < len(pairs) && pairs[i].KnownNoEmbed)
+		if len(knownAppends) > 0 {
+			res.Count("pairs_unspecified_first_to_enum_without_options")
+		}
 		cf.Terms = append(cf.Terms, fmt.Sprintf("CEdit\n   %s\n   [%s]\n   %s\n   %s %s %s %s %s %s\n   %s\n   %s", b0.Coq(), strings.Join(es, ";\n    "), b1.Coq(), j5sgen.S(pkg),
 			vh.BoolTerm(g0.ok), vh.BoolTerm(g1.ok), vh.BoolTerm(okall0), vh.BoolTerm(okall1), vh.BoolTerm(embeds), filesCoq(g0.files), filesCoq(g1.files)))
 		res.Cases = append(res.Cases, vh.CaseRec{Case: i, Stream: "edit", Input: in, Impl: map[string]any{"ok_before": g0.ok, "ok_after": g1.ok, "err_after": g1.err}})
